@@ -16,6 +16,9 @@
      add_char fails in a word     -> next_token returns 0 with T_ERROR: the parser goes on with that token
      realloc of the value vector / calloc of the reference fail -> -1, ENOMEM       (MNoMem)
    Requests of other modules (vnadata_init, _vnadata_error ...) are not requests of this model.
+   The model also records, in order, the calls the loader makes on the destination object (t_log), taking into
+   account that two decisions of the parser (a data line of a version-1 file ended by a newline, the checks after
+   [Network Data]) are acted on only after the NEXT token has been read (t_pend, MLook).
    No proofs in this file. *)
 Require Import List NArith ZArith Bool.
 Import ListNotations.
@@ -41,20 +44,42 @@ Fixpoint rd_seq {A} (a : carray A) (lo : Z) (n : nat) : res unit :=
   end.
 
 (* ---- the parser's buffers --------------------------------------------------------------------------- *)
+(* the calls the loader makes on the DESTINATION object, in order (the stores into cells are not recorded:
+   they change neither shape nor mode).  Type codes are those of vnadata_parameter_type_t. *)
+Inductive dop :=
+  | DFiletype (k : Z)                   (* vdip->vdi_filetype = k *)
+  | DFormat                             (* _vnadata_set_simple_format / vnadata_set_format succeeded *)
+  | DInit (t r c f : Z)                 (* vnadata_init *)
+  | DResize (t r c f : Z)               (* vnadata_resize *)
+  | DAllZ0                              (* vnadata_set_all_z0 *)
+  | DZ0Vec (n : nat)                    (* vnadata_set_z0_vector with a vector of n entries *)
+  | DAddFreq                            (* vnadata_add_frequency of a value that is not < 0 *)
+  | DSetFreq (i : Z)                    (* vnadata_set_frequency(vdp, i, ...) *)
+  | DFz0Vec (i : Z) (n : nat).          (* vnadata_set_fz0_vector(vdp, i, vector of n entries) *)
+
 Record tmem := mkT {
   t_text : option block_id; t_tarr : carray N; t_len : nat;        (* tps_text, its bytes, tps_text_length *)
   t_vv : option block_id; t_varr : carray xnum; t_vcount : nat;    (* tps_value_vector, tps_value_count *)
-  t_ref : option block_id; t_rarr : carray xnum }.                 (* reference *)
+  t_ref : option block_id; t_rarr : carray xnum;                   (* reference *)
+  t_log : list dop;                                                (* destination calls made so far, reversed *)
+  t_pend : list dop }.                                             (* calls the code makes after the next token *)
 (* tps_text_allocation = calloc (t_tarr m); tps_value_allocation = calloc (t_varr m) *)
 
-Definition m_empty : tmem := mkT None empty_arr 0 None empty_arr 0 None empty_arr.
-Definition set_text m p a := mkT p a (t_len m) (t_vv m) (t_varr m) (t_vcount m) (t_ref m) (t_rarr m).
-Definition set_tarr_len m a n := mkT (t_text m) a n (t_vv m) (t_varr m) (t_vcount m) (t_ref m) (t_rarr m).
+Definition m_empty : tmem := mkT None empty_arr 0 None empty_arr 0 None empty_arr [] [].
+Definition set_text m p a := mkT p a (t_len m) (t_vv m) (t_varr m) (t_vcount m) (t_ref m) (t_rarr m) (t_log m) (t_pend m).
+Definition set_tarr_len m a n := mkT (t_text m) a n (t_vv m) (t_varr m) (t_vcount m) (t_ref m) (t_rarr m) (t_log m) (t_pend m).
 Definition set_len m n := set_tarr_len m (t_tarr m) n.
-Definition set_vv m p a := mkT (t_text m) (t_tarr m) (t_len m) p a (t_vcount m) (t_ref m) (t_rarr m).
-Definition set_varr_count m a n := mkT (t_text m) (t_tarr m) (t_len m) (t_vv m) a n (t_ref m) (t_rarr m).
+Definition set_vv m p a := mkT (t_text m) (t_tarr m) (t_len m) p a (t_vcount m) (t_ref m) (t_rarr m) (t_log m) (t_pend m).
+Definition set_varr_count m a n := mkT (t_text m) (t_tarr m) (t_len m) (t_vv m) a n (t_ref m) (t_rarr m) (t_log m) (t_pend m).
 Definition set_vcount m n := set_varr_count m (t_varr m) n.
-Definition set_ref m p a := mkT (t_text m) (t_tarr m) (t_len m) (t_vv m) (t_varr m) (t_vcount m) p a.
+Definition set_ref m p a := mkT (t_text m) (t_tarr m) (t_len m) (t_vv m) (t_varr m) (t_vcount m) p a (t_log m) (t_pend m).
+Definition set_logs m l q := mkT (t_text m) (t_tarr m) (t_len m) (t_vv m) (t_varr m) (t_vcount m) (t_ref m) (t_rarr m) l q.
+(* the calls in [evs] are made now *)
+Definition log_now m (evs : list dop) := set_logs m (rev evs ++ t_log m) (t_pend m).
+(* the pending calls are made (a token was delivered) / are never made (the scan of the next token failed) *)
+Definition flush m := set_logs m (rev (t_pend m) ++ t_log m) [].
+Definition drop_pend m := set_logs m (t_log m) [].
+Definition set_pend m (evs : list dop) := set_logs m (t_log m) evs.
 
 (* ---- the token text --------------------------------------------------------------------------------- *)
 (* add_char; None = realloc failed (-1), nothing changed *)
@@ -203,31 +228,154 @@ Definition parser_mem (s : pst) (t : token) (m : tmem) : M (option tmem) :=
   | _, _ => pm_default s t m
   end.
 
+(* ---- the calls on the destination ------------------------------------------------------------------------ *)
+Definition ptype_code (t : ptype) : Z := match t with PS => 1 | PZ => 4 | PY => 5 | PH => 6 | PG => 7 end.
+
+(* "Update the vnadata structure": reached when the keyword loop ends on the current token *)
+Definition handled_kw (k : kw) : bool :=
+  match k with
+  | KNumberOfPorts | KTwoPortOrder | KNumberOfFrequencies | KNumberOfNoiseFrequencies | KReference
+  | KMatrixFormat | KMixedModeOrder | KBeginInformation => true
+  | _ => false
+  end.
+Definition header_done (s : pst) (t : token) : option hdr :=
+  match s with
+  | SBody h => match t with TKw k => if handled_kw k then None else Some h | _ => Some h end
+  | SInfo h => match t with
+               | TKw KEndInformation => None
+               | TKw k => if handled_kw k then None else Some h
+               | _ => Some h
+               end
+  | SOpt h => match t with TEof => Some h | _ => None end
+  | _ => None
+  end.
+Definition pre_events (s : pst) (t : token) : list dop :=
+  match header_done s t with
+  | Some h => [DFiletype (if h_v2 h then 2 else 1); DFormat]
+  | None => []
+  end.
+
+Definition is_v1_header (h : hdr) : bool :=
+  negb (h_v2 h) && (h_ports h =? -1) && (h_nfreq h =? -1) && match h_order h with None => true | Some _ => false end.
+
+(* [Network Data] accepted: after the NEXT token the code checks the required keywords and calls vnadata_init
+   (which resets the object and then refuses rows * columns > INT_MAX), then sets the reference impedances *)
+Definition v2_init_events (h : hdr) : list dop :=
+  let p := h_ports h in
+  if p <? 0 then []
+  else if h_nfreq h <? 0 then []
+  else if (p =? 2) && match h_order h with None => true | Some _ => false end then []
+  else if negb (p =? 2) && match h_order h with None => false | Some _ => true end then []
+  else DInit (ptype_code (h_type h)) p p (h_nfreq h) ::
+       (if int_max_sqrt <? p then []
+        else [match h_ref h with Some l => DZ0Vec (length l) | None => DAllZ0 end]).
+
+(* what load_touchstone1 does to the destination with one complete data line (the cases of v1_line) *)
+Definition v1_events (h : hdr) (v : v1st) (vals : list xnum) : list dop :=
+  let n := length vals in
+  let t := ptype_code (h_type h) in
+  let freq_ev := match vals with
+                 | x :: _ => match v1_freq h v x with Some _ => [DAddFreq] | None => [] end
+                 | [] => []
+                 end in
+  let init p := [DInit t p p 0; DAllZ0] in
+  if v_first v then
+    if Nat.even n || (n <? 3)%nat then []
+    else if (n =? 5)%nat then init 2
+    else if is_hg (h_type h) then (if (n =? 9)%nat then init 2 ++ freq_ev else [])
+    else if (n =? 9)%nat then init 2 ++ freq_ev
+    else init (Z.of_nat ((n - 1) / 2)) ++ freq_ev
+  else if v_noise v then []
+  else if (v_row v =? 0)%nat then
+    if (v_ports v =? 2)%nat then
+      if (n =? 9)%nat then freq_ev
+      else if (n =? 5)%nat then []
+      else if v_maybe4 v && (n =? 8)%nat then [DResize t 4 4 (Z.of_nat (length (v_freqs v))); DAllZ0]
+      else []
+    else if (n =? 1 + 2 * v_ports v)%nat then freq_ev else []
+  else [].
+
+(* calls made while the token is handled *)
+Definition now_events (s : pst) (t : token) : list dop :=
+  match s, t with
+  | SV1Line h v acc, TEof => v1_events h v (rev acc)
+  | SV2 h d, TDouble x =>
+      if (d_left d =? 0)%N then []
+      else match d_cur d, on_tok s t with
+           | [], SV2 _ _ => [DSetFreq (Z.of_nat (length (d_freqs d)))]
+           | _, _ => []
+           end
+  | _, _ => []
+  end.
+(* calls the code makes only after it has read the next token *)
+Definition later_events (s : pst) (t : token) : list dop :=
+  match s, t with
+  | SV1Line h v acc, TEol => v1_events h v (rev acc)
+  | _, TKw KNetworkData =>
+      match header_done s t with
+      | Some h => if is_v1_header h then [] else v2_init_events h
+      | None => []
+      end
+  | _, _ => []
+  end.
+(* the token is rejected, but only after the next one has been read *)
+Definition late_error (s : pst) (t : token) : bool :=
+  match s, t with
+  | SV1Line _ _ _, TEol => true
+  | _, TKw KNetworkData => match header_done s t with Some h => negb (is_v1_header h) | None => false end
+  | _, _ => false
+  end.
+
 (* ---- the loader ------------------------------------------------------------------------------------------ *)
-Inductive mst := MRun (s : pst) | MNoMem.
+(* MLook c: the parser has decided on class c but reads one more token (next_token(F_NONE)) before it acts *)
+Inductive mst := MRun (s : pst) | MNoMem | MLook (c : eclass).
 Definition terminal_p (s : pst) : bool := match s with SDone _ | SErr _ => true | _ => false end.
 
+(* a token was delivered (rc 0): the pending calls are made, then the token is handled *)
 Definition after_tok (s : pst) (t : token) (m : tmem) : M (mst * tmem) :=
-  o <- parser_mem s t m ;;
+  let m0 := log_now (flush m) (pre_events s t) in
+  o <- parser_mem s t m0 ;;
   match o with
-  | None => ret (MNoMem, m)
-  | Some m' => ret (MRun (on_tok s t), m')
+  | None => ret (MNoMem, m0)
+  | Some m' =>
+      let m'' := set_pend (log_now m' (now_events s t)) (later_events s t) in
+      match on_tok s t with
+      | SErr c => if late_error s t then ret (MLook c, m'') else ret (MRun (SErr c), m'')
+      | s' => ret (MRun s', m'')
+      end
   end.
 
 Definition mstep (st : mst * tmem) (x : rtok) : M (mst * tmem) :=
   match fst st with
   | MNoMem => ret st
+  | MLook c =>
+      r <- scan_tok_m (snd st) x ;;
+      match r with
+      | ScNoMemKw m' => ret (MNoMem, drop_pend m')
+      | ScNoMemWord m' => ret (MRun (SErr c), flush m')
+      | ScOk m' =>
+          match x with
+          | RErr _ => ret (MRun (SErr EBADMSG), drop_pend m')
+          | _ => match tok_of F_NONE x with
+                 | None => ret (MLook c, m')
+                 | Some _ => ret (MRun (SErr c), flush m')
+                 end
+          end
+      end
   | MRun s =>
     if terminal_p s then ret st
     else
       r <- scan_tok_m (snd st) x ;;
       match r with
-      | ScNoMemKw m' => ret (MNoMem, m')
+      | ScNoMemKw m' => ret (MNoMem, drop_pend m')
       | ScNoMemWord m' => after_tok s TError m'
       | ScOk m' =>
-          match tok_of (flags_of s) x with
-          | None => ret (MRun s, m')
-          | Some t => after_tok s t m'
+          match x with
+          | RErr _ => ret (MRun (on_tok s TError), drop_pend m')     (* next_token returned -1: goto out *)
+          | _ => match tok_of (flags_of s) x with
+                 | None => ret (MRun s, m')
+                 | Some t => after_tok s t m'
+                 end
           end
       end
   end.
@@ -246,15 +394,17 @@ Inductive mresult := MOk (o : tsobj) | MErr (c : eclass) | MENOMEM.
 Definition result_of (st : mst) : mresult :=
   match st with
   | MNoMem => MENOMEM
+  | MLook c => MErr c
   | MRun s => match pfinish s with TsParse.Ok o => MOk o | Error c => MErr c end
   end.
 
 (* what the white-box harness can see: the sizes in bytes of the three blocks handed to free *)
-Record mreport := mkrep { r_ref : option Z; r_text : option Z; r_vv : option Z }.
+Record mreport := mkrep { r_ref : option Z; r_text : option Z; r_vv : option Z; r_calls : list dop }.
 Definition report (m : tmem) : mreport :=
   mkrep (match t_ref m with Some _ => Some (16 * calloc (t_rarr m)) | None => None end)
         (match t_text m with Some _ => Some (calloc (t_tarr m)) | None => None end)
-        (match t_vv m with Some _ => Some (8 * calloc (t_varr m)) | None => None end).
+        (match t_vv m with Some _ => Some (8 * calloc (t_varr m)) | None => None end)
+        (rev (t_log m)).
 
 Definition initial_text : Z := 64.          (* VNADATA_LOAD_INITIAL_TEXT_ALLOCATION *)
 
